@@ -26,7 +26,8 @@ Clauses(e) ==
             <<"str", e.str = CardStr(MkCard(e.rank, e.suit))>>,
             <<"rs", e.rs = CardStrRS(MkCard(e.rank, e.suit))>> >>
     [] e.fn = "card.from_int" ->
-         << <<"rank", e.rank = CardRank(e.a)>>, <<"suit", e.suit = CardSuit(e.a)>> >>
+         << <<"rank", e.rank = CardRank(e.a)>>, <<"suit", e.suit = CardSuit(e.a)>>,
+            <<"domain", e.a \in 0..51>> >>
     [] e.fn = "card.from_str" ->
          << <<"text", e.text = CardStr(e.out)>> >>
     [] e.fn = "card.rank_str" ->
@@ -41,8 +42,9 @@ Clauses(e) ==
             <<"name", e.name = CallName(e.a)>>,
             <<"level", e.level = IF IsBid(e.a) THEN Level(e.a) ELSE 0>>,
             <<"suit", e.suit = IF IsBid(e.a) THEN Strain(e.a) ELSE 5>> >>
-    [] e.fn = "bid.from_int" -> << <<"value", e.out = e.a>> >>
-    [] e.fn = "bid.from_level_suit" -> << <<"value", e.out = MkBid(e.level, e.suit)>> >>
+    [] e.fn = "bid.from_int" -> << <<"value", e.out = e.a>>, <<"domain", e.a \in 0..37>> >>
+    [] e.fn = "bid.from_level_suit" -> << <<"value", e.out = MkBid(e.level, e.suit)>>,
+                                          <<"domain", e.level \in 1..7 /\ e.suit \in 0..4>> >>
     [] e.fn = "bid.from_str" -> << <<"text", e.text = CallStr(e.out)>> >>
     [] e.fn = "seat.props" ->
          << <<"str", e.str = SeatShort[e.a + 1]>>,
@@ -147,7 +149,10 @@ Consume ==
   /\ i <= NTrace
   /\ i' = i + 1
   /\ LET e == Trace[i]
-         c == IF e.raised THEN "raised" ELSE AllFails(Clauses(e))
+         \* a probe is something that is nobody's notation: it may be refused; if it
+         \* is accepted the result must have it as a notation all the same
+         c == IF e.raised THEN (IF "probe" \in DOMAIN e /\ e.probe THEN "" ELSE "raised")
+              ELSE AllFails(Clauses(e))
      IN IF c = "" THEN nrej' = nrej
         ELSE /\ Reject(e.tid, i, e.fn \o ":fail=" \o c)
              /\ nrej' = nrej + 1
